@@ -254,6 +254,15 @@ def _run_cli(text, form):
 
 
 def execute(case, ctx):
+    if case.get('kind') == 'lattice':
+        from .. import quotelattice as Q
+        got, r = Q.assemble([case['line']])
+        fs = []
+        if got != bytes(case['bytes']):
+            fs.append(Finding('C07/quoted-character-literal-wrong-or-rejected',
+                              {'line': case['line'], 'expected': bytes(case['bytes']).hex(),
+                               'got': got.hex() if got is not None else r.klass, 'run': r.brief()}))
+        return Outcome(fs, True, ['lattice-replay'], 1)
     if case.get('kind') == 'fuzz':
         got = _run_api(case['text'])
         return Outcome([], False, ['fuzz-replay:' + str(got)], 1)
@@ -371,7 +380,7 @@ LEVEL_NOTE = ('Trusted: the reference evaluator in bvf/exprs.py (Fractions, writ
               'asserted (see assumptions in evidence).')
 
 
-def extra_phase(tier, seed):
+def _fuzz_phase(tier, seed):
     """Coverage-guided campaign (atheris/libFuzzer) with the same oracle inside the target; empty corpus."""
     import os
     import shutil
@@ -422,3 +431,26 @@ def extra_phase(tier, seed):
            'wellformed_at_least': wf, 'malformed_at_least': mal, 'libfuzzer_artifacts(crash/oom/timeout)': crashes,
            'corpus': 'empty'}
     return {'evals': execs, 'cases': execs, 'findings': findings, 'report': rep}
+
+
+def _lattice_phase(tier):
+    """Every quoted-character literal next to every tricky one (quote, semicolon, comma, backslash ...) in every statement
+    position, without comments: the bytes are the character codes (exhaustive over bvf/quotelattice.values)."""
+    from .. import quotelattice as Q
+    jobs = Q.values(tier)
+    runs, bad = Q.survey(jobs)
+    findings = [('C07/quoted-character-literal-wrong-or-rejected', {'kind': 'lattice', 'line': j['line'], 'bytes': j['bytes']}, d)
+                for j, d in bad]
+    return {'evals': len(jobs), 'cases': len(jobs), 'findings': findings,
+            'report': {'statements_enumerated': len(jobs), 'assembler_runs': runs, 'exhaustive': True,
+                       'family': 'ldi X / .byte X / put2 X, Y / .byte X, Y / label: ldi X over pairs of quoted characters'},
+            'samples': [{'lattice_statement': j['line'], 'expected_bytes': bytes(j['bytes']).hex()} for j in jobs[:2]]}
+
+
+def extra_phase(tier, seed):
+    a = _lattice_phase(tier)
+    b = _fuzz_phase(tier, seed)
+    return {'evals': a['evals'] + b.get('evals', 0), 'cases': a['cases'] + b.get('cases', 0),
+            'findings': a['findings'] + b.get('findings', []),
+            'report': {'quoted_character_lattice': a['report'], 'coverage_guided': b.get('report', {})},
+            'samples': a['samples']}
